@@ -62,7 +62,11 @@ def run(ctx):
                        'the dead event is registered and the exit destructor armed before the thread exists; the destructor only posts', floor=8)
     ctx.rule('R-C13f', 'drain: a worker dies only on a decision, taken in the same pool-lock region, that no work is queued '
                        '(seq_head == seq_tail) resp. that it was not kicked', floor=2)
+    ctx.rule('R-C13g', 'handed work is not abandoned: wherever an item is queued (seq_tail stepped) and a worker is woken for it through its '
+                       'kick event, that worker\'s kicked mark -- the state on which the idle-timeout path decides to die (R-C13f) -- is set non-zero '
+                       'in the same pool-lock region as the wake-up', floor=2)
     ctx.section(drain)
+    ctx.section(handed)
     ctx.section(container_free)
     ctx.section(pool_free)
     ctx.section(hooks)
@@ -171,6 +175,92 @@ def drain(ctx):
                    path=path_to(g, bad[0]) if bad else None, fn=root.q)
     if n < 2:
         raise AnalysisBroken('worker exit sites: %d (context, site) pairs found, 2 confirmed' % n)
+
+
+# --------------------------------------------------------------------------
+# R-C13g
+# --------------------------------------------------------------------------
+
+def _obj_keys(base):
+    """spellings of the object expression `base` (of base->field): its canonical text and, when copy propagation replaced
+    a pointer local by the expression it holds, that local"""
+    ks = {canon(strip(base))}
+    w = h13.was_of(base)
+    if w:
+        ks.add(w)
+    b = strip(base)
+    if isinstance(b, dict) and b.get('_was'):
+        ks.add(b['_was'])
+    return ks
+
+
+def _member_base(x):
+    x = strip(x)
+    if isinstance(x, dict) and x.get('k') == 'addr':
+        x = strip(x['e'])
+    return x.get('base') if isinstance(x, dict) and x.get('k') == 'member' else None
+
+
+def handed(ctx):
+    """R-C13f lets a worker die on the decision `kicked == 0` (idle timeout).  That decision means "nobody handed me work"
+    only if every wake-up for a queued item sets the mark: in every context that queues an item (steps seq_tail), every
+    post of a worker's kick event shares its pool-lock region (no lock/unlock of the pool lock in between, in either
+    order of the two) with a store of a non-zero constant to the kicked field of the same worker, not undone by a later
+    store to that field in the region.  The release also posts kicks, but queues nothing: an unmarked worker that times
+    out there has an empty queue and dies through the ordinary death path."""
+    prog = ctx.prog
+    n = 0
+    def queues(e):
+        if not (e['ev'] == 'store' and lvalue_steps(e['lhs']) == [(PRIV, 'seq_tail')]):
+            return False
+        d = h13.store_delta(e)
+        return d is not None and d > 0
+    lockop = lambda e: any(lid == POOL for (op, lid) in lock_effect(e))
+    def kicked_store(e):
+        return e['ev'] == 'store' and lvalue_steps(e['lhs'])[-1:] == [(THR, 'kicked')]
+    def nonzero(e):
+        return (e.get('op') in ('=', '|=') and 'rhs' in e and is_int(e['rhs']) and strip(e['rhs'])['v'] != 0)
+    for (root, g, sites) in h13.contexts(prog, queues, key='queues'):
+        posts = [e for e in g.events() if is_kick_post(e)]
+        if not posts:
+            continue
+        ls = locksets(g)
+        for loc, evs in sorted(h13.by_loc(posts).items(), key=lambda kv: str(kv[0])):
+            n += 1
+            bad, why = [], ''
+            for k in evs:
+                kb = _member_base(k['args'][0])
+                keys = _obj_keys(kb) if kb is not None else set()
+                def same(e, keys=keys):
+                    mb = _member_base(e['lhs'])
+                    return mb is not None and bool(_obj_keys(mb) & keys)
+                mark = lambda e: kicked_store(e) and same(e) and nonzero(e)
+                unmark = lambda e: lockop(e) or (kicked_store(e) and not nonzero(e))    # (a zeroing store through any spelling)
+                locked = POOL in held(ls.get((k['_b'], k['_i'])))
+                before = bool(h13.must(g, mark, kill=unmark).get((k['_b'], k['_i'])))
+                # from the post to the end of its lock region, per path: True (marked, standing) / False (not marked) while
+                # the region is open; 'done' / 'open' once it ended marked / unmarked
+                def step(e, s):
+                    if s in ('done', 'open'):
+                        return s
+                    if lockop(e):
+                        return 'done' if s else 'open'
+                    if kicked_store(e):
+                        return (True if same(e) else s) if nonzero(e) else False
+                    return s
+                fin = h13.forward_from(g, k, frozenset({before}), lambda e, S: frozenset(step(e, s) for s in S),
+                                       lambda a, b: a | b).get((g.exit, 0))
+                marked = fin is not None and all(s in (True, 'done') for s in fin)
+                if not locked:
+                    bad.append(k); why = 'the wake-up is posted outside the pool lock'
+                elif not marked:
+                    bad.append(k); why = 'no store of a non-zero value to the woken worker\'s kicked field in the lock region of the post'
+            ctx.ob('R-C13g', 'wakeup-marks-worker@%s' % root.name, not bad, loc=loc,
+                   detail='an item is queued in this context and the worker is woken for it: its kicked mark (tested by the idle-timeout path before dying) '
+                          'is set non-zero in the same pool-lock region%s' % ('' if not bad else ': ' + why),
+                   path=path_to(g, bad[0]) if bad else None, fn=root.q)
+    if n < 2:
+        raise AnalysisBroken('wake-ups of workers in contexts that queue work: %d (context, site) pairs found, 2 confirmed' % n)
 
 
 # --------------------------------------------------------------------------
